@@ -1,10 +1,12 @@
 package props
 
 import (
+	"encoding/json"
 	"fmt"
 	"go/ast"
 	"go/token"
 	"go/types"
+	"path/filepath"
 	"sort"
 	"strings"
 
@@ -133,6 +135,8 @@ func c11RegistryEnums(c *core.Ctx) {
 	}
 }
 
+func init() { _ = filepath.Join }
+
 func keysOf(m map[string]bool) []string {
 	var out []string
 	for k := range m {
@@ -140,4 +144,141 @@ func keysOf(m map[string]bool) []string {
 	}
 	sort.Strings(out)
 	return out
+}
+
+// c11RegimeType — C11-R5 (second clause): `$regime` is declared as an
+// l10n tax-country-code. A regime's alternative country codes that are not tax
+// country codes (GR for the EL regime) are accepted by the registry lookup but
+// can never satisfy the member's declared type; documents must therefore
+// replace them by the regime's own code while calculating. Decided: either no
+// such alternative code exists in data/regimes, or every document type that
+// publishes the `$regime` enumeration canonicalises in Calculate — a call
+// SetRegime(<its RegimeDef()>.Country) conditioned on nothing but the regime
+// being set and defined.
+func c11RegimeType(c *core.Ctx) {
+	p := c.P
+	taxCodes := map[string]bool{}
+	if b, err := p.ReadFile(filepath.Join(p.Repo, "data", "schemas", "l10n", "tax-country-code.json")); err == nil {
+		var doc map[string]any
+		if json.Unmarshal(b, &doc) == nil {
+			var walk func(v any)
+			walk = func(v any) {
+				switch x := v.(type) {
+				case map[string]any:
+					if cst, ok := x["const"].(string); ok {
+						taxCodes[cst] = true
+					}
+					for _, y := range x {
+						walk(y)
+					}
+				case []any:
+					for _, y := range x {
+						walk(y)
+					}
+				}
+			}
+			walk(doc)
+		}
+	}
+	if len(taxCodes) < 20 {
+		c.Ob("C11-R5", "UNRESOLVED:tax-country-codes", token.NoPos, false, "could not read the tax country code enumeration from data/schemas/l10n/tax-country-code.json")
+		return
+	}
+	var outside []string
+	files, _ := filepath.Glob(filepath.Join(p.Repo, "data", "regimes", "*.json"))
+	sort.Strings(files)
+	for _, f := range files {
+		b, err := p.ReadFile(f)
+		if err != nil {
+			continue
+		}
+		var rd struct {
+			Country string   `json:"country"`
+			Alt     []string `json:"alt_country_codes"`
+		}
+		if json.Unmarshal(b, &rd) != nil {
+			continue
+		}
+		for _, a := range rd.Alt {
+			if !taxCodes[a] {
+				outside = append(outside, a+" (regime "+rd.Country+")")
+			}
+		}
+	}
+	c.Extra("alt_regime_codes_outside_tax_country_codes", outside)
+	if len(outside) == 0 {
+		c.Ob("C11-R5", "tax.Regime.$regime#declared-type", token.NoPos, true, "")
+		return
+	}
+	// document types that publish the enumeration
+	for _, fd := range p.AllFuncs() {
+		if fd.Obj.Name() != "JSONSchemaExtend" || fd.Decl.Recv == nil {
+			continue
+		}
+		info := fd.Pkg.TypesInfo
+		publishes := false
+		for _, call := range core.CallsTo(info, fd.Decl.Body, func(f *types.Func) bool { return core.IsFunc(f, core.ModPath+"/tax", "Regime", "JSONSchemaExtend") }) {
+			_ = call
+			publishes = true
+		}
+		recvT := core.RecvNamed(fd.Obj)
+		if !publishes || recvT == nil {
+			continue
+		}
+		key := core.TypeName(recvT) + "#canonical-regime"
+		obj, _, _ := types.LookupFieldOrMethod(types.NewPointer(recvT), true, recvT.Obj().Pkg(), "Calculate")
+		cfn, _ := obj.(*types.Func)
+		cfd := p.DeclOf(cfn)
+		if cfd == nil {
+			c.Ob("C11-R5", key, fd.Decl.Pos(), false, "no Calculate method")
+			continue
+		}
+		cinfo := cfd.Pkg.TypesInfo
+		recv := recvVar(cfd)
+		ff := core.NewFuncFlow(cfd)
+		ld := core.NewLocalDefs(cinfo, cfd.Decl.Body)
+		ok := false
+		for _, call := range core.CallsTo(cinfo, cfd.Decl.Body, func(f *types.Func) bool { return core.IsFunc(f, core.ModPath+"/tax", "Regime", "SetRegime") }) {
+			if len(call.Args) != 1 || core.RootVar(cinfo, core.RecvExpr(call)) != recv {
+				continue
+			}
+			// argument: <def>.Country with def := <recv>.RegimeDef()
+			se, isSel := ast.Unparen(call.Args[0]).(*ast.SelectorExpr)
+			if !isSel || se.Sel.Name != "Country" {
+				continue
+			}
+			dv := core.VarOf(cinfo, se.X)
+			var defExpr ast.Expr = se.X
+			if dv != nil {
+				if ds := ld.All(dv); len(ds) == 1 && ds[0].RHS != nil {
+					defExpr = ds[0].RHS
+				}
+			}
+			dc, isCall := ast.Unparen(defExpr).(*ast.CallExpr)
+			if !isCall {
+				continue
+			}
+			if fn := core.Callee(cinfo, dc); fn == nil || fn.Name() != "RegimeDef" || core.RootVar(cinfo, core.RecvExpr(dc)) != recv {
+				continue
+			}
+			// conditions: only `IsEmpty()` false on the receiver's regime and `def != nil`
+			only := true
+			if node := ff.Flow.EnclosingNode(call); node != nil {
+				for l, v := range ff.Flow.CondsAt(node) {
+					g := core.GuardOf(cinfo, l, ff.Errs)
+					switch {
+					case g.Kind == "nil" && dv != nil && core.VarOf(cinfo, g.X) == dv && g.Neg == v:
+					case g.Kind == "bool" && g.Call != nil && core.Callee(cinfo, g.Call) != nil && core.Callee(cinfo, g.Call).Name() == "IsEmpty" && !v:
+					default:
+						only = false
+					}
+				}
+			}
+			if only {
+				ok = true
+			}
+		}
+		c.Ob("C11-R5", key, cfd.Decl.Pos(), ok,
+			fmt.Sprintf("alternative regime codes %v are accepted for $regime although they are not tax country codes (the member's declared type), and %s.Calculate does not replace them by the regime's own code: a valid document keeps a $regime the published schema rejects", outside, core.TypeName(recvT)))
+	}
 }
